@@ -1157,7 +1157,7 @@ def lookup_container_ok(ctx, csrc, roles):
         if s.kind == "param" and s[2] == 1 and len(s[3]) >= 1 and roles and s[3][0] == roles["graph"] and \
                 (fb.fns.get(s[1], {}).get("impl_self", "") or "").startswith("fn_graph::FnGraph<"):
             continue
-        if s.kind == "alloc" and s[4] == "daggy::Dag::<N, E, Ix>::node_weights_mut":
+        if s.kind == "alloc" and s[4] == "std::iter::Iterator::collect":
             # per-function lock table: check the chain collect(map(node_weights_mut(g), RwLock::new))
             b = fb.bodies[s[1]]
             ok, why = lock_table_chain_ok(ctx, b, s[2], roles)
@@ -1168,32 +1168,27 @@ def lookup_container_ok(ctx, csrc, roles):
     return True, ""
 
 
-def lock_table_chain_ok(ctx, body, nw_bb, roles):
+def lock_table_chain_ok(ctx, body, collect_bb, roles):
     """fn_mut_refs = graph.node_weights_mut().map(RwLock::new).collect()"""
-    # find the collect whose chain contains this node_weights_mut call
-    for bb, t in body.calls():
-        if callee_path(t) == "std::iter::Iterator::collect":
-            chain = iterator_chain(ctx, body, expr_operand(body, t["args"][0]))
-            names = [p for p, _, _ in chain]
-            hit = [e for p, cb, e in chain if p == "daggy::Dag::<N, E, Ix>::node_weights_mut" and e[3] == nw_bb]
-            if not hit:
-                continue
-            bad = [p for p in names if p in SELECTIVE_ITER or p in ("std::iter::Iterator::rev", "std::iter::Iterator::skip",
-                                                                    "std::iter::Iterator::enumerate", "std::iter::Iterator::zip")
-                   or p.startswith("leaf") or p.startswith("opaque")]
-            if bad:
-                return False, "per-function lock table is filtered/reordered by %s (position i would no longer be function i)" % bad
-            maps = [e for p, cb, e in chain if p == "std::iter::Iterator::map"]
-            for e in maps:
-                f = e[2][1]
-                if not (f.kind == "fnconst" and f[1] == "tokio::sync::RwLock::<T>::new"):
-                    return False, "lock table elements are mapped through %s" % fmt_expr(f, body)
-            g = sources_of_expr(ctx, body, hit[0][2][0])
-            for s in g:
-                if not (s.kind == "param" and s[2] == 1 and s[3][:1] == (roles["graph"],)):
-                    return False, "lock table is not built from the graph's own function storage"
-            return True, ""
-    return False, "collect of the per-function lock table not found"
+    t = body.blocks[collect_bb]["term"]
+    chain = iterator_chain(ctx, body, expr_operand(body, t["args"][0]))
+    names = [p for p, _, _ in chain]
+    hit = [e for p, cb, e in chain if p == "daggy::Dag::<N, E, Ix>::node_weights_mut"]
+    if not hit:
+        return False, "per-function lock table is not built from node_weights_mut(): chain %s" % names
+    bad = [p for p in names if p in SELECTIVE_ITER or p in MORE_ITER or p.startswith("leaf") or p.startswith("opaque")]
+    if bad:
+        return False, "per-function lock table is filtered/reordered by %s (position i would no longer be function i)" % bad
+    maps = [e for p, cb, e in chain if p == "std::iter::Iterator::map"]
+    for e in maps:
+        f = e[2][1]
+        if not (f.kind == "fnconst" and f[1] == "tokio::sync::RwLock::<T>::new"):
+            return False, "lock table elements are mapped through %s" % fmt_expr(f, body)
+    g = sources_of_expr(ctx, body, hit[0][2][0])
+    for s in g:
+        if not (s.kind == "param" and s[2] == 1 and s[3][:1] == (roles["graph"],)):
+            return False, "lock table is not built from the graph's own function storage"
+    return True, ""
 
 
 def interrupt_mapper(ctx):
